@@ -186,7 +186,9 @@ SumTo(s, n)  == LET S[i \in 0..n] == IF i = 0 THEN 0 ELSE S[i - 1] + s[i] IN S[n
 ArgLen(f)    == SumTo(Shape(f), Len(Shape(f)))
 Opnd(f, flat, j) == SubSeq(flat, SumTo(Shape(f), j - 1) + 1, SumTo(Shape(f), j))
 \* positions of `flat` that hold an address type flag (0 / 1)
-FlagPos(f)   == {SumTo(Shape(f), j - 1) + 1 : j \in {j \in 1..Len(Shape(f)) : f \in {"f5", "f6"} /\ Shape(f)[j] = 1}}
+FlagPos(f)   == CASE f = "f5" -> {65, 72} [] f = "f6" -> {68, 75} [] OTHER -> {}
+ASSUME FlagPosShape == \A f \in Fns : FlagPos(f) = {SumTo(Shape(f), j - 1) + 1 :
+                                                       j \in {j \in 1..Len(Shape(f)) : f \in {"f5", "f6"} /\ Shape(f)[j] = 1}}
 ResultLen(f) == CASE f = "f5" -> 32 [] f = "g2" -> 4 [] OTHER -> 16
 
 \* what the call has to return (f5: MacKey followed by LTK; g2: the 32 bit number as 4 octets, least significant first)
